@@ -6,7 +6,8 @@
  * <l> = list index in creation order, <n> = node index in creation order, '-' = NULL.
  * An op naming a dead node / destroyed list is not issued (token "skip").
  * Values are small integers carried in the void* itself (never dereferenced).
- * After every mutating op all live lists are dumped:
+ * After every mutating op (of the first 120 ops; afterwards after every 8th op if mutating) and
+ * at the end all live lists are dumped:
  *   {<l>:f=<node>.<val>.<parent>,...;b=<node>.<val>,...;c=<len>|...}
  * output: one line "<k> R tok tok ..."
  */
@@ -26,28 +27,8 @@ static ares_llist_t      *ll_lists[LL_MAXL];
 static int                ll_list_live[LL_MAXL];
 static long               ll_nlists;
 
-static int       ll_fail_next;
 static long long ll_calls[LL_MAXN];
 static long      ll_ncalls;
-
-static void *ll_malloc(size_t sz)
-{
-  if (ll_fail_next) {
-    return NULL;
-  }
-  return malloc(sz);
-}
-static void *ll_realloc(void *p, size_t sz)
-{
-  if (ll_fail_next) {
-    return NULL;
-  }
-  return realloc(p, sz);
-}
-static void ll_free(void *p)
-{
-  free(p);
-}
 
 static void ll_destructor(void *p)
 {
@@ -214,12 +195,10 @@ static void ll_kill_list_nodes(long l)
 static void run_llist(long k, char *ops)
 {
   char *save = NULL, *op;
-  long  i;
+  long  i, opidx = -1;
 
   ll_nnodes    = 0;
   ll_nlists    = 0;
-  ll_fail_next = 0;
-  ares_library_init_mem(ARES_LIB_INIT_ALL, ll_malloc, ll_free, ll_realloc);
 
   printf("%ld R", k);
   for (op = strtok_r(ops, ";", &save); op; op = strtok_r(NULL, ";", &save)) {
@@ -231,6 +210,7 @@ static void run_llist(long k, char *ops)
     long long v = 0;
     char *end;
 
+    opidx++;
     if (*op == '!') {
       fail = 1;
       op++;
@@ -245,9 +225,9 @@ static void run_llist(long k, char *ops)
 
     if (strcmp(name, "new") == 0 && nargs == 2) {
       ares_llist_t *l;
-      ll_fail_next = fail;
+      dsa_alloc_fail_all = fail;
       l            = ares_llist_create(strcmp(a1, "0") != 0 ? ll_destructor : NULL);
-      ll_fail_next = 0;
+      dsa_alloc_fail_all = 0;
       if (l != NULL && ll_nlists < LL_MAXL) {
         ll_lists[ll_nlists]     = l;
         ll_list_live[ll_nlists] = 1;
@@ -259,13 +239,13 @@ static void run_llist(long k, char *ops)
       if (!ll_parse_ptr(a1, &x, &xnull)) { printf(" BADOP"); continue; }
       v = strtoll(a2, &end, 10);
       if (!ll_list_ok(x, xnull)) { printf(" skip"); goto dump; }
-      ll_fail_next = fail;
+      dsa_alloc_fail_all = fail;
       if (name[1] == 'f') {
         n = ares_llist_insert_first(xnull ? NULL : ll_lists[x], (void *)(intptr_t)v);
       } else {
         n = ares_llist_insert_last(xnull ? NULL : ll_lists[x], (void *)(intptr_t)v);
       }
-      ll_fail_next = 0;
+      dsa_alloc_fail_all = 0;
       ll_new_node(n, x);
       ll_print_node(n);
     } else if ((strcmp(name, "ib") == 0 || strcmp(name, "ia") == 0) && nargs == 3) {
@@ -273,13 +253,13 @@ static void run_llist(long k, char *ops)
       if (!ll_parse_ptr(a1, &x, &xnull)) { printf(" BADOP"); continue; }
       v = strtoll(a2, &end, 10);
       if (!ll_node_ok(x, xnull)) { printf(" skip"); goto dump; }
-      ll_fail_next = fail;
+      dsa_alloc_fail_all = fail;
       if (name[1] == 'b') {
         n = ares_llist_insert_before(xnull ? NULL : ll_nodes[x], (void *)(intptr_t)v);
       } else {
         n = ares_llist_insert_after(xnull ? NULL : ll_nodes[x], (void *)(intptr_t)v);
       }
-      ll_fail_next = 0;
+      dsa_alloc_fail_all = 0;
       ll_new_node(n, xnull ? -1 : ll_node_list[x]);
       ll_print_node(n);
     } else if ((strcmp(name, "nf") == 0 || strcmp(name, "nl") == 0) && nargs == 2) {
@@ -373,7 +353,7 @@ static void run_llist(long k, char *ops)
       continue;
     }
 dump:
-    if (mutating) {
+    if (mutating && (opidx < 120 || opidx % 8 == 0)) {
       ll_dump("");
     }
   }
@@ -387,8 +367,7 @@ dump:
       ll_list_live[i] = 0;
     }
   }
-  ll_fail_next = 0;
-  ares_library_cleanup();
+  dsa_alloc_fail_all = 0;
 }
 
 DSA_REGISTER("llist", run_llist)
